@@ -71,7 +71,7 @@ CLAIMED = {
     "C10": ("other",
             "Byte-class tables of the Name grammar folded over all 256 bytes (and compared with the lexer's and parser's), shape of is_valid_syntax, who-calls gate on the unchecked constructors (dominating successful check / grammar-matching literal / const-asserted macro), guard of the numeric serde visitors, the regular languages accepted by IntValue::valid_syntax and FloatValue::valid_syntax (extracted from their HIR as automata and compared with the grammar's IntValue / FloatValue by language difference, each direction with a shortest witness), the text of From<i32>/From<f64> (Display only), and the Display templates of Type vs the CST conversion.",
             "Clause-level: float printing is std behaviour; numeric round trips are not decided.",
-            "pattern-set evaluation, dominating-fact (GUARD) who-calls rule, abstract interpretation of string predicates into regular languages + automata equivalence, format-template decoding over rustc HIR/MIR", False),
+            "pattern-set evaluation, dominating-fact (GUARD) who-calls rule, abstract interpretation of string predicates into regular languages + automata equivalence, format-template decoding over rustc HIR/MIR", True),
     "C09": ("other",
             "Composition of three extracted tables: the serializer's escaped-character set and per-character escape text, the lexer's string-body/escape tables and the decoder's table - every character the lexer cannot take raw is escaped and every escape decodes back to the same character; plus the presence rules of can_be_block_string (carriage return, blank first/last line, zero common indentation computed over the non-blank lines only) and the triple-quote constants shared with the parser.",
             "Decides the table-level inverse relation and the block-string gate; the round trip over all Unicode strings (indentation arithmetic, line joining) is not decided.",
